@@ -1,7 +1,7 @@
 (* C05 — Data directives emit exactly the bytes they specify. *)
 From V Require Import Base.
 From V.model Require Import MText MValues MOperands MProgram.
-From V.proofs Require Import PRender PC05.
+From V.proofs Require Import PRender PC05 PC05list.
 From V.gen Require Tables.
 From Coq Require String.
 Import String.StringSyntax.
@@ -47,8 +47,7 @@ Print Assumptions C05_rmb_emits_zeros.
 
 (* (c) a single FCB / FDB value: one byte / two bytes high byte first, two's complement at the directive's
    width; a value outside the width is rejected (false upstream: FCB -1 -> 01, FCB 256 -> 10; repair F29).
-   PARTIAL: value LISTS are rendered by MultiByteValue/MultiWordValue; their model (multi_hex / multi_fits)
-   is validated by the correspondence grid, the list theorem is not stated. *)
+   Value lists follow in (c'). *)
 Theorem C05_fcb_single_value :
   forall i s v p,
     text_eqb (mnem i) FCB_t = true -> v_is_numeric v = true ->
@@ -73,6 +72,48 @@ Theorem C05_fcb_out_of_range_rejected :
     (256 <= value_number v \/ value_number v < -128)%Z -> translate_operand (OPseudo s v) i = Diag 21.
 Proof. exact fcb_out_of_range_rejected. Qed.
 Print Assumptions C05_fcb_out_of_range_rejected.
+
+(* (c') value LISTS of any length >= 2 (MultiByteValue / MultiWordValue).  elem_ok p n: the piece p is not empty, holds no
+   comma and is a literal the assembler reads as the number n (decimal, -decimal, $hex, %binary, 'c).  The operand text
+   p1,p2,...,pk (join 44 parts) of the FCB / FDB row of the regenerated table is accepted and emits, in order, one
+   byte / two bytes high byte first per listed value - its two's complement at the directive's width - and
+   reserves exactly that many bytes; a list with a value outside the width is rejected (ValueTypeError, a
+   ParseError at the statement level).  False upstream for a list holding -0 (rejected; repair F53). *)
+Theorem C05_fcb_list_emits_one_byte_per_value :
+  forall i parts ns,
+    find_instr FCB_t Tables.instructions = Some i -> (2 <= length parts)%nat -> Forall2 elem_ok parts ns ->
+    Forall (fun n => (-128 <= num_number n <= 255)%Z) ns ->
+    exists v p, create_operand (join 44 parts) i = Ok (OPseudo (join 44 parts) v) /\
+      translate_operand (OPseudo (join 44 parts) v) i = Ok p /\
+      cp_size p = N.of_nat (length ns) /\ emit_value (cp_op p) = Ok [] /\ emit_value (cp_post p) = Ok [] /\
+      emit_value (cp_add p) = Ok (map (fun n => Z.to_N (num_number n mod 256)) ns).
+Proof. exact fcb_list_emits_its_values. Qed.
+Print Assumptions C05_fcb_list_emits_one_byte_per_value.
+
+Theorem C05_fdb_list_emits_two_bytes_per_value :
+  forall i parts ns,
+    find_instr FDB_t Tables.instructions = Some i -> (2 <= length parts)%nat -> Forall2 elem_ok parts ns ->
+    Forall (fun n => (-32768 <= num_number n <= 65535)%Z) ns ->
+    exists v p, create_operand (join 44 parts) i = Ok (OPseudo (join 44 parts) v) /\
+      translate_operand (OPseudo (join 44 parts) v) i = Ok p /\
+      cp_size p = N.of_nat (2 * length ns) /\ emit_value (cp_op p) = Ok [] /\ emit_value (cp_post p) = Ok [] /\
+      emit_value (cp_add p) =
+        Ok (flat_map (fun n => [Z.to_N ((num_number n mod 65536) / 256); Z.to_N (num_number n mod 256)]) ns).
+Proof. exact fdb_list_emits_its_values. Qed.
+Print Assumptions C05_fdb_list_emits_two_bytes_per_value.
+
+Theorem C05_list_value_out_of_range_rejected :
+  forall parts ns, (2 <= length parts)%nat -> Forall2 elem_ok parts ns ->
+    (forall i, find_instr FCB_t Tables.instructions = Some i ->
+       Exists (fun n => (num_number n < -128 \/ 255 < num_number n)%Z) ns -> create_operand (join 44 parts) i = Diag 20) /\
+    (forall i, find_instr FDB_t Tables.instructions = Some i ->
+       Exists (fun n => (num_number n < -32768 \/ 65535 < num_number n)%Z) ns -> create_operand (join 44 parts) i = Diag 20).
+Proof.
+  intros parts ns Hl He. split; intros i Hi Hb.
+  - exact (fcb_list_out_of_range_rejected i parts ns Hi Hl He Hb).
+  - exact (fdb_list_out_of_range_rejected i parts ns Hi Hl He Hb).
+Qed.
+Print Assumptions C05_list_value_out_of_range_rejected.
 
 (* (d) EQU, ORG, SETDP, NAM, END, INCLUDE (every pseudo operation other than FCB/FDB/RMB/FCC) emit nothing *)
 Theorem C05_other_directives_emit_nothing :
@@ -102,3 +143,16 @@ Example C05_nonvacuous :
 "; t " FCB SYM
 "] = Ok r /\ r_image r = [52]%N).
 Proof. split; [eexists; split; vm_compute; reflexivity|]. split; [vm_compute; reflexivity | eexists; split; vm_compute; reflexivity]. Qed.
+
+(* the hypotheses of (c') are met by a list in every spelling (the rows exist in the regenerated table) *)
+Example C05_list_nonvacuous :
+  exists i ns, find_instr FCB_t Tables.instructions = Some i /\
+    Forall2 elem_ok [t "1"; t "-1"; t "$7F"; t "%10000000"; t "'A"; t "-0"; t "-128"; t "255"] ns /\
+    map num_number ns = [1; -1; 127; 128; 65; 0; -128; 255]%Z.
+Proof.
+  destruct (find_instr FCB_t Tables.instructions) as [i|] eqn:E; [|vm_compute in E; discriminate].
+  exists i. eexists. split; [reflexivity|]. split.
+  - repeat (apply Forall2_cons; [split; [discriminate|]; split; [vm_compute; intuition discriminate | vm_compute; reflexivity]|]).
+    apply Forall2_nil.
+  - vm_compute. reflexivity.
+Qed.
